@@ -124,6 +124,19 @@ func epochFiles(e srcEpoch) (map[string][]byte, error) {
 	return m, nil
 }
 
+// looksUsable: nothing in the description of the epoch says that the load must fail.
+func looksUsable(e srcEpoch) bool {
+	if st200(e.ListSt) != 200 || e.ListMode != "" || e.RootErr != "" {
+		return false
+	}
+	for _, f := range e.Files {
+		if st200(f.St) != 200 || f.Mode != "" || f.Dangling {
+			return false
+		}
+	}
+	return true
+}
+
 const e2eRefresh = time.Second
 
 func runE2EScn(sc e2eScn) (e2eScnOut, error) {
@@ -299,9 +312,17 @@ func runE2EScn(sc e2eScn) (e2eScnOut, error) {
 		settled(j)
 		got := askAll(cfg)
 		if sameInts(got, prev) {
-			// the update goroutine of TLSConfig may still be applying what the watcher sent
-			time.Sleep(300 * time.Millisecond)
-			got = askAll(cfg)
+			// the update goroutine of TLSConfig may still be applying what the watcher sent: an epoch in which
+			// nothing is visibly wrong is given up to 2 s to show, any other 300 ms (the verdict is the driver's;
+			// this only decides how long to look)
+			wait := 300 * time.Millisecond
+			if looksUsable(sc.Epochs[j]) {
+				wait = 2 * time.Second
+			}
+			for dl := time.Now().Add(wait); sameInts(got, prev) && time.Now().Before(dl); {
+				time.Sleep(20 * time.Millisecond)
+				got = askAll(cfg)
+			}
 		}
 		out.Answers = append(out.Answers, got)
 		prev = got
